@@ -485,10 +485,12 @@ example : useSlice [.int 1, .full, .slice .none (.const (-1)) (.const 2)] = true
       = .ok [.drop 1, .pick [0, 1, 2], .pick [0, 2]] := by decide
 
 /-- **Whole expressions, Gather path.**  When the converter does *not* take the Slice path (no
-non-trivial slice, at most one Python int — and any number of tensor-valued indices), **no**
-hypothesis on the components is needed at all: every Gather-translated component, tensor-valued
-or the lone int, of any value in or out of range, is gathered from the highest axis down and the
-result, if there is one, is NumPy's. -/
+non-trivial slice, at most one Python int — `huse`), the dims/D22 hypotheses of
+`graph_index_correct_partial` are not needed and no condition is put on the *values* of the components
+(in or out of range).  The other hypotheses stay: at most one 1-D index (`hvec`), broadcast axis in
+place (`hnt`, finding C11-N3), not more components than axes (`hlen`, finding C11-N1) — restricted
+statement, not renamed `_partial` only to keep the name stable.  Under them the result of the Gather
+chain (highest axis down), if there is one, is NumPy's. -/
 theorem graph_index_gatherpath_correct (comps : List Comp) (shape : List Nat) (r : View)
     (hvec : (comps.filter Comp.isVec).length ≤ 1)
     (hnt : needsTranspose comps = false)
@@ -749,8 +751,9 @@ theorem eager_axis_eq_numpy (c : Comp) (srcs : List Nat) (hv : c.isVec = false) 
         simp only [hb0]
         rw [slice_list_eager_eq_numpy srcs _ _ _ h0]
 
-/-- Converse core, eager mode: whenever NumPy's per-axis maps exist (at most one 1-D index, not more
-components than axes), `Tensor.__getitem__` runs and produces them. -/
+/-- Converse core, eager mode — restricted statement (hypotheses `hlen`: not more components than
+axes, `hvec`: at most one 1-D index; the converse for two or more 1-D indices is not proved): whenever
+NumPy's per-axis maps exist, `Tensor.__getitem__` runs and produces them. -/
 theorem eager_index_of_axes (comps : List Comp) (shape : List Nat) (r : View)
     (hlen : comps.length ≤ shape.length)
     (hvec : (comps.filter Comp.isVec).length ≤ 1)
@@ -775,8 +778,11 @@ theorem eager_index_of_axes (comps : List Comp) (shape : List Nat) (r : View)
       exact ha
 
 
-/-- **Whole expressions, eager mode: exactly NumPy's result, no hypothesis.**  For every index
-expression and shape: if NumPy returns a tensor (so: at most one 1-D index, broadcast axis in
+/-- **Whole expressions, eager mode, converse direction.**  No *explicit* hypothesis — but the
+antecedent is restrictive: the model `numpyIndex` answers `.unmodelled` (never `.ok`) for two or more
+1-D indices and when NumPy moves the broadcast axis (`needsTranspose`), so the statement says nothing
+about the forms of findings C11-N4 / C11-N3.  For every index
+expression and shape: if `numpyIndex` returns a tensor (so: at most one 1-D index, broadcast axis in
 place, not more components than axes, no zero step, every integer in range), then
 `Tensor.__getitem__` returns *that* tensor.  Together with `eager_index_correct_partial`: on the
 modelled forms `eagerIndex comps shape = .ok r ↔ numpyIndex comps shape = .ok r` — eager indexing
@@ -795,8 +801,9 @@ theorem eager_index_complete (comps : List Comp) (shape : List Nat) (r : View)
   rw [if_neg h3] at h
   exact eager_index_of_axes comps shape r (by omega) (by omega) h
 
-/-- … so, on the forms NumPy's side of the model expresses, eager indexing and NumPy agree as
-partial functions. -/
+/-- … so, **under the two restricting hypotheses** `hvec` (at most one 1-D index) and `hnt`
+(`needsTranspose = false`, i.e. outside finding C11-N3) — a restricted statement although the name has
+no `_partial` — eager indexing and the model `numpyIndex` agree as partial functions. -/
 theorem eager_index_iff_numpy (comps : List Comp) (shape : List Nat) (r : View)
     (hvec : (comps.filter Comp.isVec).length ≤ 1) (hnt : needsTranspose comps = false) :
     eagerIndex comps shape = .ok r ↔ numpyIndex comps shape = .ok r :=
@@ -1139,8 +1146,9 @@ example : 2 ≤ ([Comp.tVec [0, 1], .full, .tVec [1]].filter Comp.isVec).length 
     (ZRes.mk [.zip [0, 1], .pick [0, 1, 2], .zip [1, 1]] false).shape = [2, 3] := by decide
 
 /-- **Eager mode, any number of 1-D indices (of one common length)**: `Tensor.__getitem__`'s view is
-exactly NumPy's per-axis maps, un-zipped — no other hypothesis (eager mode has no D22, no size bound, and
-refuses surplus components itself). -/
+exactly NumPy's per-axis maps, un-zipped.  Restricted statement: hypothesis `hn` (all 1-D indices have
+the same length `n`, which excludes NumPy's stretching of length-1 indices); beyond `hn` nothing is
+assumed (eager mode has no D22, no size bound, and refuses surplus components itself). -/
 theorem eager_index_correct_upto_zip (comps : List Comp) (shape : List Nat) (r : View) (n : Nat)
     (hn : ∀ c ∈ comps, ∀ vs, c = .tVec vs → vs.length = n)
     (h : eagerIndex comps shape = .ok r) :
@@ -1190,7 +1198,7 @@ theorem eager_multi_vec_never_numpy (comps : List Comp) (shape : List Nat) (r : 
       rw [heq] at hlen
       omega
 
-example : 2 ≤ ([Comp.int 1, .tVec [0, 1], .tVec [1, 0, 2]].filter Comp.isVec).length ∧
+example : 2 ≤ ([Comp.int 1, .tVec [0, 1], .tVec [2]].filter Comp.isVec).length ∧
     eagerIndex [.int 1, .tVec [0, 1], .tVec [2]] [2, 3, 4] = .ok [.drop 1, .pick [0, 1], .pick [2]] ∧
     numpyIndexZ [.int 1, .tVec [0, 1], .tVec [2]] [2, 3, 4] = .ok ⟨[.drop 1, .zip [0, 1], .zip [2, 2]], false⟩ ∧
     (ZRes.mk [.drop 1, .zip [0, 1], .zip [2, 2]] false).shape = [2] := by decide
